@@ -30,12 +30,12 @@ theorem premI_of_premise {s : BSt} (h : GracePremise s) : PremI s := by
   · exact h _ (th_mem s hi) st hst
   · rw [th_lt_or_default s i (by omega)] at hst; cases hst
 
-theorem start_GI {s : BSt} (h : Start s) (hg : s.cfg.grace ≠ 0) (hr : s.cfg.refreshAfterSample = true) : GI s := by
+theorem start_GI {s : BSt} (h : Start s) : GI s := by
   refine ⟨0, ?_⟩
   have hth : ∀ i, s.th i = default := fun i => th_lt_or_default s i (by rw [h.ths]; exact Nat.zero_le _)
   have hact : ∀ a, s.actor a = none := fun a => by simp [BSt.actor, h.actors]
   exact {
-    grace := hg, ras := hr, hdr := h.hdr, floorNow := Nat.zero_le _, cacheEq := rfl
+    cfgEq := rfl, hdr := h.hdr, floorNow := Nat.zero_le _, cacheEq := rfl
     sorted := fun i => by rw [hth]; exact List.Pairwise.nil
     leNow := fun i st hst => by rw [hth] at hst; cases hst
     qc := fun i => by rw [hth]; exact qc_default
@@ -47,18 +47,24 @@ theorem start_GI {s : BSt} (h : Start s) (hg : s.cfg.grace ≠ 0) (hr : s.cfg.re
     ctxReg := fun a x i hx => by rw [hact] at hx; cases hx
     ctxInj := fun a b x y i hx => by rw [hact] at hx; cases hx
     pend := fun a x st hx => by rw [hact] at hx; cases hx
-    ord := fun _ => {
+    ord := fun _ _ _ => {
       popSorted := by rw [h.popLog]; exact List.Pairwise.nil
       above := fun p hp => by rw [h.popLog] at hp; cases hp
       popFloor := fun p hp => by rw [h.popLog] at hp; cases hp
       bufFloor := fun i st hst => by rw [hth] at hst; cases hst
       late := fun _ _ hT => absurd trivial hT } }
 
-/-- under the premise, the global pop order (newest first) is sorted -/
-theorem GI.popSorted {s : BSt} (h : GI s) (hp : GracePremise s) :
-    s.popLog.Pairwise (fun a b => b.ts ≤ a.ts) := by
+/-- the ordering clauses of the invariant, in the configuration of C05 and under its premise -/
+theorem GI.ord {s : BSt} (h : GI s) (hg : s.cfg.grace ≠ 0) (hr : s.cfg.refreshAfterSample = true)
+    (hp : GracePremise s) : ∃ fl, PIo s.cfg fl s ∧ Ord fl (fun _ => True) s := by
   obtain ⟨fl, h⟩ := h
-  exact (h.ord (premI_of_premise hp)).popSorted
+  exact ⟨fl, h, h.ord hg hr (premI_of_premise hp)⟩
+
+/-- under the premise, the global pop order (newest first) is sorted -/
+theorem GI.popSorted {s : BSt} (h : GI s) (hg : s.cfg.grace ≠ 0) (hr : s.cfg.refreshAfterSample = true)
+    (hp : GracePremise s) : s.popLog.Pairwise (fun a b => b.ts ≤ a.ts) := by
+  obtain ⟨fl, _, o⟩ := h.ord hg hr hp
+  exact o.popSorted
 
 end PB
 end Backend
